@@ -27,9 +27,11 @@ class StepBound(Exception):
 def shards(tier):
     if tier == 'quick':
         return [dict(kind='kc', n=1920, parts=12, timeout=900),
-                dict(kind='foreign', n=800, parts=4, timeout=900)]
+                dict(kind='foreign', n=800, parts=4, timeout=900),
+                dict(kind='ftraj', n=240, parts=4, timeout=900)]
     return [dict(kind='kc', n=48000, parts=12, timeout=3400),
-            dict(kind='foreign', n=16000, parts=4, timeout=3400)]
+            dict(kind='foreign', n=16000, parts=4, timeout=3400),
+            dict(kind='ftraj', n=6000, parts=4, timeout=3400)]
 
 
 def setup(ctx):
@@ -71,6 +73,8 @@ def run_case(ctx, kind, rng, idx):
     from vf.monitor import Frozen
     if kind == 'foreign':
         return run_foreign(ctx, rng, idx)
+    if kind == 'ftraj':
+        return run_ftraj(ctx, rng, idx)
     small = rng.random() < 0.35
     X, info = cc.gen_data(rng, nmax=13 if small else 60)
     n = len(X)
@@ -419,3 +423,127 @@ def run_foreign(ctx, rng, idx):
         ctx.nontriv('foreign', X.tobytes(), init.tobytes(), n_clusters, cutoff)
     if idx % 300 == 0:
         ctx.sample(desc)
+
+
+def xyz_distance(traj, frame):
+    """Un-superposed Euclidean distance between conformations (a metric;
+    float64 arithmetic, so repeated evaluations agree exactly)."""
+    a = np.asarray(traj.xyz, dtype=np.float64)
+    b = np.asarray(frame.xyz, dtype=np.float64)[0]
+    return np.sqrt(((a - b) ** 2).sum(axis=(1, 2)))
+
+
+def run_ftraj(ctx, rng, idx):
+    """md.Trajectory data with initial centers that are not frames of it
+    (structures from elsewhere), plain and with the triangle-inequality
+    shortcut."""
+    import mdtraj as md
+    from vf import trajgen
+    n = int(rng.integers(5, 40))
+    use_rmsd = rng.random() < 0.35
+    n_atoms = int(rng.integers(3, 6)) if use_rmsd else int(rng.integers(1, 4))
+    top = trajgen.topology(n_atoms)
+    geom = ['cloud', 'line'][int(rng.integers(0, 2))]
+    xyz = trajgen.random_xyz(rng, n, n_atoms)
+    if geom == 'line' and not use_rmsd:
+        # low-dimensional arrangements make the pruning bound bite
+        t = np.sort(rng.uniform(0, 10, size=n))
+        xyz = np.zeros((n, n_atoms, 3), dtype=np.float32)
+        xyz[:, 0, 0] = t
+    frames = md.Trajectory(xyz.astype(np.float32), top)
+    metric = md.rmsd if use_rmsd else xyz_distance
+    ref = (lambda T, c: np.asarray(md.rmsd(T, c), dtype=float)) if use_rmsd \
+        else xyz_distance
+    tol = 2e-3 if use_rmsd else 1e-9
+    n_init = int(rng.integers(1, 4))
+    pick = rng.choice(n, size=n_init, replace=False)
+    ix = frames.xyz[pick].astype(np.float64)
+    spread = float(np.abs(frames.xyz).max()) or 1.0
+    ix = ix + rng.normal(scale=0.15 * spread, size=ix.shape)
+    init = md.Trajectory(ix.astype(np.float32), top)
+    n_clusters = n_init + int(rng.integers(1, 6))
+    desc = {'n': n, 'n_atoms': n_atoms, 'metric': 'rmsd' if use_rmsd else
+            'xyz-euclidean', 'geom': geom, 'n_init': n_init,
+            'n_clusters': n_clusters,
+            'xyz': frames.xyz if frames.xyz.size <= 90 else 'elided',
+            'init_xyz': init.xyz if init.xyz.size <= 40 else 'elided'}
+    ctx.describe(desc)
+    ctx.seen('criteria', 'ftraj/%s' % desc['metric'])
+    out = {}
+    for tri in (False, True):
+        ctx.hist = []
+        fr = md.Trajectory(frames.xyz.copy(), top)
+        it = md.Trajectory(init.xyz.copy(), top)
+        try:
+            out[tri] = kcenters.kcenters(
+                fr, metric, n_clusters=n_clusters, init_centers=it,
+                use_triangle_inequality=tri)
+        except StepBound as e:
+            ctx.violation('kcenters.ftraj.does-not-stop', str(e))
+            return
+        except Exception as e:  # noqa
+            ctx.violation('kcenters.ftraj.raised[tri=%s]' % tri, '%s: %s' % (
+                type(e).__name__, str(e)[:200]))
+            return
+    ctx.count('stop_rules_checked')
+    for tri in (False, True):
+        res = out[tri]
+        tag = 'shortcut' if tri else 'plain'
+        cen = list(res.centers)
+        K = len(cen)
+        lab = np.asarray(res.assignments)
+        dist = np.asarray(res.distances, dtype=float)
+        if K != n_clusters and K < n:
+            ctx.violation('kcenters.ftraj.cluster-count',
+                          '[%s] %d centers for n_clusters=%d' % (
+                              tag, K, n_clusters))
+            continue
+        if np.any(lab < 0) or np.any(lab >= K):
+            ctx.violation('kcenters.ftraj.label-range', '[%s] labels %s' % (
+                tag, np.unique(lab).tolist()))
+            continue
+        fr = md.Trajectory(frames.xyz.copy(), top)
+        DK = np.stack([ref(fr, md.Trajectory(np.asarray(c.xyz).copy(), top))
+                       for c in cen], axis=1)
+        own = DK[np.arange(n), lab]
+        sc = 1 + np.abs(own)
+        if use_rmsd:
+            # float32 RMSD: sqrt amplifies rounding near zero (a frame against
+            # itself gives up to ~3e-3; the value also depends at the 1e-4 level on
+            # whether mdtraj has already centred the arrays in place), so
+            # compare squared values with a single-precision tolerance
+            DK, own, dist = DK ** 2, own ** 2, dist ** 2
+            tol, sc = 3e-4, 1 + own
+        if np.any(np.abs(own - dist) > tol * sc):
+            i = int(np.argmax(np.abs(own - dist)))
+            ctx.violation('kcenters.ftraj.distance-wrong',
+                          '[%s] frame %d: reported %.7g, distance to its '
+                          'center %d is %.7g%s' % (
+                              tag, i, dist[i], lab[i], own[i],
+                              ' (squared)' if use_rmsd else ''))
+        if np.any(DK.min(axis=1) < dist - tol * sc):
+            i = int(np.argmax(dist - DK.min(axis=1)))
+            ctx.violation('kcenters.ftraj.not-nearest',
+                          '[%s] frame %d reported at %.7g from center %d but '
+                          'center %d is at %.7g%s' % (
+                              tag, i, dist[i], lab[i], int(DK[i].argmin()),
+                              DK[i].min(), ' (squared)' if use_rmsd else ''))
+    ctx.count('shortcut_pairs')
+    a, b = out[False], out[True]
+    if not use_rmsd:
+        same = [int(i) for i in a.center_indices] == [
+            int(i) for i in b.center_indices]
+        da, db = np.asarray(a.distances), np.asarray(b.distances)
+        if not same or not np.allclose(da, db, rtol=1e-9, atol=1e-12) or \
+                not np.array_equal(a.assignments, b.assignments):
+            # equally far frames may legitimately be picked in another order
+            ties = len(np.unique(np.round(da, 9))) < len(da) - 1
+            if ties and same:
+                ctx.count('ftraj_ambiguous_ties')
+            else:
+                ctx.violation('kcenters.ftraj.shortcut-differs',
+                              'same centers=%s, max |d - d_plain| = %.3g' % (
+                                  same, np.abs(da - db).max()))
+    if n_clusters - n_init >= 2:
+        ctx.nontriv('ftraj', frames.xyz.tobytes(), init.xyz.tobytes(),
+                    n_clusters)
